@@ -292,6 +292,14 @@ PROPS = {
                    quick=8, thorough=150),
               dict(driver="crash", args=["--nops", "25", "--threads", "2", "--large",
                                          "--gen2-every", "9"], quick=4, thorough=60)]),
+    "C08": dict(
+        design=[(DUR, ["MC_RainDur_small.cfg"], ["MC_RainDur_small.cfg", "MC_RainDur_big.cfg"])],
+        switches=[("Bug_WriteErrorSwallowed", DUR, "MC_RainDur_small.cfg", "Durable"),
+                  ("Bug_ManifestErrorSwallowed", DUR, "MC_RainDur_small.cfg", None)],
+        work=[dict(driver="fault", args=["--nops", "22", "--positions", "60"], quick=6, thorough=60,
+                   one_per_proc=True),
+              dict(driver="fault", args=["--nops", "14", "--positions", "40", "--large"], quick=2,
+                   thorough=20, one_per_proc=True)]),
     "C16": dict(
         design=[(DUR, ["MC_RainDur_small.cfg"], ["MC_RainDur_small.cfg", "MC_RainDur_big.cfg"])],
         switches=[("Bug_ReuseAfterTornTail", DUR, "MC_RainDur_small.cfg", None)],
@@ -302,7 +310,7 @@ PROPS = {
 }
 
 PROP_SEED_BASE = {"C01": 1000, "C03": 3000, "C07": 7000, "C10": 10000, "C11": 11000,
-                  "C02": 2000, "C16": 16000}
+                  "C02": 2000, "C16": 16000, "C08": 8000}
 
 
 def check_prop(prop, tier, seed):
@@ -338,6 +346,12 @@ def check_prop(prop, tier, seed):
         recs += r
         files += sorted(glob.glob(f"{outdir}/p*/part*/trace_*.ndjson"))
         log(f"[{prop}] {w['driver']}: {len(r)} runs executed")
+        if w["driver"] == "fault":
+            refs = [x for x in r if x.get("status") == "reference"]
+            extra["fault_runs"] = extra.get("fault_runs", 0) + len(r) - len(refs)
+            extra["fault_fired"] = extra.get("fault_fired", 0) + sum(1 for x in r if x.get("fired", 0) > 0)
+            extra["faultable_calls_in_reference_runs"] = extra.get("faultable_calls_in_reference_runs", 0) + sum(x["total_ops"] for x in refs)
+            extra["fault_classes"] = sorted(set(extra.get("fault_classes", [])) | {c for x in refs for c in x["classes"]})
         if w["driver"] == "crash":
             for k in ("journal_ops", "probes", "torn_probes", "gen2_probes"):
                 extra["crash_" + k] = extra.get("crash_" + k, 0) + sum(x["crash"][k] for x in r)
@@ -418,16 +432,25 @@ def finish(prop, tier, seed, t0, design, switches, recs, vruns, rejects, tstates
     reported = set()
     for vr, v in violations:
         seed_v = vr["seed"]
-        if (seed_v, v["check"]) in reported:
+        if (seed_v, vr.get("tag"), v["check"]) in reported:
             continue
-        reported.add((seed_v, v["check"]))
+        reported.add((seed_v, vr.get("tag"), v["check"]))
         rec = by_seed.get(seed_v, {})
         rp = rec.get("replay", "")
         dst = f"{vdir}/{prop}_{v['check']}_{seed_v}.json"
-        try:
-            shutil.copy(rp, dst)
-        except Exception:
-            dst = rp
+        if vr.get("tag") and ":" in vr["tag"]:
+            # fault run: the replay is (workload seed, position, mode)
+            idx, sticky = vr["tag"].split(":")
+            wl = [r for r in recs if r.get("wseed") == seed_v]
+            dst = f"{vdir}/{prop}_{v['check']}_{seed_v}_{idx}_{sticky}.json"
+            json.dump({"driver": "fault", "seed": seed_v, "idx": int(idx), "sticky": sticky == "true",
+                       "nops": wl[0].get("nops", 22) if wl else 22,
+                       "large": wl[0].get("large", False) if wl else False}, open(dst, "w"))
+        else:
+            try:
+                shutil.copy(rp, dst)
+            except Exception:
+                dst = rp
         log(f"VIOLATION property={prop} replay={dst}")
         log(f"  check={v['check']} after={v['after']} line={v['line']} detail={json.dumps(v['detail'])} trace={vr['trace']}")
         rc = 1
@@ -470,11 +493,21 @@ def replay(path):
     rp = json.load(open(path))
     outdir = f"{OUT}/replay"
     shutil.rmtree(outdir, ignore_errors=True)
-    r = sh([BIN, rp["driver"], "--replay", path, "--out", outdir], timeout=900)
+    if rp["driver"] == "fault":
+        cmd = [BIN, "fault", "--seed", str(rp["seed"]), "--runs", "1", "--nops", str(rp["nops"]),
+               "--idx", str(rp["idx"]), "--out", outdir]
+        if rp.get("sticky"):
+            cmd.append("--sticky")
+        if rp.get("large"):
+            cmd.append("--large")
+        r = sh(cmd, timeout=900)
+    else:
+        r = sh([BIN, rp["driver"], "--replay", path, "--out", outdir], timeout=900)
     log(r.stdout[-2000:])
     files = sorted(glob.glob(f"{outdir}/trace_*.ndjson"))
     spec = {"hist": ("RainCore_Trace.tla", "RainCore_Trace.cfg"),
-            "crash": ("RainCore_Trace.tla", "RainCore_Trace.cfg")}[rp["driver"]]
+            "crash": ("RainCore_Trace.tla", "RainCore_Trace.cfg"),
+            "fault": ("RainCore_Trace.tla", "RainCore_Trace.cfg")}[rp["driver"]]
     vruns, rejects, _ = validate_traces(files, spec[0], spec[1], 2, "replay")
     for vr in vruns:
         log(json.dumps(vr)[:4000])
